@@ -453,9 +453,11 @@ const (
 	rolePubTCPStalled  // TCP publisher towards a session whose packet callback blocks: the client's writer blocks
 	roleRawPlayTCP     // hand-made TCP reader: sends bursts of RTCP receiver reports, several frames per write
 	roleRawRecTCP      // hand-made TCP publisher: sends bursts of RTP frames, several frames per write
+	roleReadMcast      // library Client with Protocol = UDP-multicast (see mcast.go)
+	roleRawPlayMcast   // hand-made multicast reader: TCP control connection, SETUP RTP/AVP;multicast, PLAY, then silence
 )
 
-var roleNames = []string{"idle-conn", "options-only", "read-tcp", "read-udp", "pub-tcp", "pub-udp", "read-tcp-stalled", "pub-tcp-stalled", "raw-play-tcp", "raw-rec-tcp"}
+var roleNames = []string{"idle-conn", "options-only", "read-tcp", "read-udp", "pub-tcp", "pub-udp", "read-tcp-stalled", "pub-tcp-stalled", "raw-play-tcp", "raw-rec-tcp", "read-mcast", "raw-play-mcast"}
 
 type scenario struct {
 	Idx            int          `json:"idx"`
@@ -476,6 +478,9 @@ type scenario struct {
 	ClientCloseCb  int          `json:"cclosecb"` // > 0: readers call Client.Close from inside their n-th OnPacketRTP
 	ReportUs       int          `json:"reportus"` // > 0: period (microseconds) of the RTCP sender / receiver report goroutines of server and clients, so that Close races their ticks
 	Corpus         string       `json:"corpus,omitempty"`
+	McastIP        string       `json:"mcastip,omitempty"`    // address of a multicast-capable interface: the server gets a multicast configuration; "" = the machine has none
+	WaitPlay       bool         `json:"waitplay,omitempty"`   // the injected Close waits until every peer that goes as far as PLAY / RECORD has got there (or has given up)
+	LeaveFirst     []int        `json:"leavefirst,omitempty"` // these peers leave (Client.Close / TEARDOWN) before the injected Close
 }
 
 func (s *scenario) String() string {
@@ -498,6 +503,8 @@ type cl struct {
 	mu     sync.Mutex
 	c      *gortsplib.Client // guarded by mu (set by the client's goroutine, read by the closer)
 	raw    net.Conn          // guarded by mu
+	rawp   *rawPeer          // guarded by mu (hand-made multicast reader: the closer sends its TEARDOWN)
+	played atomic.Bool       // PLAY / RECORD has been answered with 200
 	gate   chan struct{}     // stalled reader: closed to release
 	closed atomic.Bool       // Client.Close has returned
 	after  atomic.Int64      // callbacks seen after Close returned
@@ -547,6 +554,7 @@ func runScenario(sc *scenario) (word []uint64, final bool, fails []failure, maxC
 	if hasStalledPub {
 		h.block = make(chan struct{})
 	}
+	mc := newMcastEnv(sc)
 	var srv *gortsplib.Server
 	var port, udpPort int
 	for try := 0; ; try++ {
@@ -557,6 +565,7 @@ func runScenario(sc *scenario) (word []uint64, final bool, fails []failure, maxC
 			UDPRTPAddress: "127.0.0.1:" + strconv.Itoa(udpPort), UDPRTCPAddress: "127.0.0.1:" + strconv.Itoa(udpPort+1),
 			WriteQueueSize: sc.Q, ReadTimeout: 3 * time.Second, WriteTimeout: 1500 * time.Millisecond, IdleTimeout: 30 * time.Second,
 		}
+		mc.configure(srv, port)
 		if sc.ReportUs > 0 {
 			srv.VerifSMSetPeriods(0, time.Duration(sc.ReportUs)*time.Microsecond, time.Duration(sc.ReportUs)*time.Microsecond)
 		}
@@ -577,6 +586,7 @@ func runScenario(sc *scenario) (word []uint64, final bool, fails []failure, maxC
 	h.mu.Lock()
 	h.stream = stream
 	h.mu.Unlock()
+	mc.stream, mc.nMedias, mc.add = stream, len(desc.Medias), add
 
 	timed := func(what string, bound time.Duration, f func()) {
 		t0 := time.Now()
@@ -647,14 +657,41 @@ func runScenario(sc *scenario) (word []uint64, final bool, fails []failure, maxC
 			depth := sc.Depth[i]
 			url := "rtsp://127.0.0.1:" + strconv.Itoa(port) + "/s" + strconv.Itoa(i)
 			switch role {
-			case roleRawPlayTCP, roleRawRecTCP:
+			case roleRawPlayTCP, roleRawRecTCP, roleRawPlayMcast:
 				p, err := rawDial("127.0.0.1:" + strconv.Itoa(port))
 				if err != nil {
 					return
 				}
 				x.mu.Lock()
-				x.raw = p.nc
+				x.raw, x.rawp = p.nc, p
 				x.mu.Unlock()
+				if role == roleRawPlayMcast {
+					// a multicast reader needs nothing but its control connection: SETUP of both medias allocates
+					// the multicast writers of the stream (if it is the first multicast reader), PLAY registers the
+					// peer with their RTCP listeners; then it stays silent until somebody closes it
+					nap()
+					if depth < 2 {
+						return
+					}
+					for k := 0; k < 2; k++ {
+						if st, err := p.do("SETUP", url+"/trackID="+strconv.Itoa(k), map[string]string{"Transport": "RTP/AVP;multicast"}, nil); err != nil || st != 200 {
+							return
+						}
+					}
+					nap()
+					if depth < 3 {
+						return
+					}
+					if st, err := p.do("PLAY", url, nil, nil); err != nil || st != 200 {
+						return
+					}
+					x.played.Store(true)
+					if depth >= 4 {
+						time.Sleep(time.Duration(10+r.Intn(40)) * time.Millisecond)
+						p.do("PAUSE", url, nil, nil) //nolint:errcheck
+					}
+					return
+				}
 				if role == roleRawPlayTCP {
 					if st, err := p.do("SETUP", url+"/trackID=0", map[string]string{"Transport": "RTP/AVP/TCP;unicast;interleaved=0-1"}, nil); err != nil || st != 200 {
 						return
@@ -684,6 +721,7 @@ func runScenario(sc *scenario) (word []uint64, final bool, fails []failure, maxC
 						return
 					}
 				}
+				x.played.Store(true)
 				go p.drain()
 				seq := uint16(r.Intn(65536))
 				for b := 0; b < sc.NBursts; b++ {
@@ -724,8 +762,13 @@ func runScenario(sc *scenario) (word []uint64, final bool, fails []failure, maxC
 				}
 				return
 			}
+			if role == roleReadMcast {
+				// the client picks the interface of its multicast sockets from the local address of its control
+				// connection: it has to reach the server through a multicast-capable interface
+				url = "rtsp://" + mc.ip + ":" + strconv.Itoa(port) + "/s" + strconv.Itoa(i)
+			}
 			c := &gortsplib.Client{
-				Scheme: "rtsp", Host: "127.0.0.1:" + strconv.Itoa(port),
+				Scheme: "rtsp", Host: url[len("rtsp://"):strings.LastIndex(url, "/")],
 				ReadTimeout: 3 * time.Second, WriteTimeout: 1200 * time.Millisecond, WriteQueueSize: sc.Q,
 				OnPacketsLost: func(uint64) {}, OnDecodeError: func(error) {},
 			}
@@ -735,6 +778,8 @@ func runScenario(sc *scenario) (word []uint64, final bool, fails []failure, maxC
 			switch role {
 			case roleReadUDP, rolePubUDP:
 				c.Protocol = protoPtr(gortsplib.ProtocolUDP)
+			case roleReadMcast:
+				c.Protocol = protoPtr(gortsplib.ProtocolUDPMulticast)
 			default:
 				c.Protocol = protoPtr(gortsplib.ProtocolTCP)
 			}
@@ -747,7 +792,7 @@ func runScenario(sc *scenario) (word []uint64, final bool, fails []failure, maxC
 			u, _ := base.ParseURL(url)
 			nap()
 			switch role {
-			case roleReadTCP, roleReadUDP, roleReadTCPStalled:
+			case roleReadTCP, roleReadUDP, roleReadTCPStalled, roleReadMcast:
 				if depth < 1 {
 					return
 				}
@@ -789,6 +834,7 @@ func runScenario(sc *scenario) (word []uint64, final bool, fails []failure, maxC
 				if _, err := c.Play(nil); err != nil {
 					return
 				}
+				x.played.Store(true)
 				if depth < 4 {
 					return
 				}
@@ -818,6 +864,7 @@ func runScenario(sc *scenario) (word []uint64, final bool, fails []failure, maxC
 				if _, err := c.Record(); err != nil {
 					return
 				}
+				x.played.Store(true)
 				seq := uint16(r.Intn(65536))
 				pay := make([]byte, 1300)
 				for j := 0; j < 4000; j++ {
@@ -861,7 +908,64 @@ func runScenario(sc *scenario) (word []uint64, final bool, fails []failure, maxC
 			time.Sleep(500 * time.Microsecond)
 		}
 	}
+	if sc.WaitPlay {
+		// every peer that is meant to get as far as PLAY / RECORD is there (or has given up)
+		lim := time.After(4 * time.Second)
+	waitPlay:
+		for i, x := range cls {
+			if sc.Depth[i] < 3 || sc.Roles[i] == roleIdleConn || sc.Roles[i] == roleOptions {
+				continue
+			}
+			for !x.played.Load() {
+				select {
+				case <-x.done:
+					if !x.played.Load() {
+						continue waitPlay
+					}
+				case <-lim:
+					break waitPlay
+				case <-time.After(time.Millisecond):
+				}
+			}
+		}
+	}
+	nMcast := 0 // multicast readers of the stream (a session becomes a reader of the stream with its first SETUP)
+	for i, r := range sc.Roles {
+		if isMcastRole(r) && sc.Depth[i] >= 2 {
+			nMcast++
+		}
+	}
+	deterministic := sc.Corpus != "" && sc.WaitPlay && mc.enabled() && nMcast > 0
+	if deterministic {
+		mc.expectReaders(nMcast, "before anything is closed")
+	}
+	for _, i := range sc.LeaveFirst {
+		if i < 0 || i >= len(cls) {
+			continue
+		}
+		x := cls[i]
+		select {
+		case <-x.done:
+		case <-time.After(closeBound):
+		}
+		x.mu.Lock()
+		xc, xp := x.c, x.rawp
+		x.mu.Unlock()
+		if xc != nil && !x.closed.Load() {
+			timed(fmt.Sprintf("Client.Close (%s leaving)", roleNames[sc.Roles[i]]), closeBound, func() { closeClient(x, xc) })
+		} else if xp != nil {
+			xp.do("TEARDOWN", "rtsp://127.0.0.1:"+strconv.Itoa(port)+"/s"+strconv.Itoa(i), nil, nil) //nolint:errcheck
+			xp.nc.Close()
+		}
+		if isMcastRole(sc.Roles[i]) && sc.Depth[i] >= 2 {
+			nMcast--
+		}
+	}
+	if deterministic && len(sc.LeaveFirst) > 0 {
+		mc.expectReaders(nMcast, fmt.Sprintf("after peer(s) %v have left", sc.LeaveFirst))
+	}
 	time.Sleep(time.Duration(sc.DelayMs) * time.Millisecond)
+	mc.consistent("before the injected Close")
 	releaseBlock := func() {
 		h.mu.Lock()
 		if h.block != nil {
@@ -904,6 +1008,7 @@ func runScenario(sc *scenario) (word []uint64, final bool, fails []failure, maxC
 		serverClosed = true
 	case "stream":
 		timed("ServerStream.Close", closeBound, stream.Close)
+		mc.afterStreamClose("the injected Close")
 	case "client":
 		// close the clients that exist by now, concurrently with whatever they are doing
 		for i, x := range cls {
@@ -985,7 +1090,9 @@ func runScenario(sc *scenario) (word []uint64, final bool, fails []failure, maxC
 		closeClients()
 	}
 	wgW.Wait()
+	mc.consistent("before the final ServerStream.Close")
 	timed("ServerStream.Close", closeBound, stream.Close)
+	mc.afterStreamClose("the final Close")
 	if !serverClosed {
 		timed("Server.Close", closeBound, func() { srv.Close(); afterServerClose() })
 	}
@@ -1012,6 +1119,7 @@ func runScenario(sc *scenario) (word []uint64, final bool, fails []failure, maxC
 			pc.Close()
 		}
 	}
+	mc.atEnd()
 	for i, x := range cls {
 		if n := x.after.Load(); n > 0 {
 			add("client-callback-after-close", "client %d (%s): %d packet callbacks after Client.Close had returned", i, roleNames[sc.Roles[i]], n)
@@ -1034,13 +1142,13 @@ var portSlot int
 // the deterministic cases that every run starts with: the shapes of the regression "a connection tells its
 // session that it is gone before its reader goroutine has been joined" (seeded change C13-2) and of
 // Client.Close called from a packet callback
-func corpus() []*scenario {
+func corpus(mcastIP string) []*scenario {
 	mk := func(name string, role clientRole, f func(*scenario)) *scenario {
 		sc := &scenario{Seed: 7, Roles: []clientRole{role}, Depth: []int{3}, Target: "none", Q: 64, Burst: 5, NBursts: 3, GapUs: 1000, Corpus: name}
 		f(sc)
 		return sc
 	}
-	return []*scenario{
+	out := []*scenario{
 		mk("kick-conn-in-rtcp-callback-tcp-play", roleRawPlayTCP, func(s *scenario) {
 			s.Inject = inject{Site: "pkt", What: "conn", Nth: 1, HoldMs: 30}
 			s.WaitInject = true
@@ -1089,15 +1197,95 @@ func corpus() []*scenario {
 			s.Roles, s.Depth, s.DelayMs = []clientRole{roleReadUDP, roleReadUDP, roleReadUDP, roleReadUDP}, []int{3, 3, 3, 3}, 120
 		}),
 	}
+	if mcastIP == "" {
+		return out
+	}
+	// A stream with multicast AND other readers: its multicast writers (listener goroutines, write queue, RTCP
+	// senders, group sockets) are released when the last multicast reader is taken off the stream - by
+	// ServerStream.Close in the middle of its walk over the reader table, whose order is random: every shape is
+	// repeated (with 1 multicast reader and k others a defect that depends on "a non-multicast reader is visited
+	// after the last multicast one" shows with probability k/(k+1) per run).
+	mcast := func(name string, target string, leave []int, roles ...clientRole) {
+		s := &scenario{Seed: 7 + uint64(len(out)), Roles: roles, Target: target, Q: 64, Burst: 2, NBursts: 2, GapUs: 1000, DelayMs: 10,
+			WaitPlay: true, LeaveFirst: leave, Corpus: name}
+		for range roles {
+			s.Depth = append(s.Depth, 3)
+		}
+		s.McastIP = mcastIP
+		out = append(out, s)
+	}
+	for rep := 0; rep < 4; rep++ {
+		m := either(rep%2 == 0, roleReadMcast, roleRawPlayMcast)
+		mcast("stream-close-1-multicast-3-tcp-readers", "stream", nil, m, roleReadTCP, roleRawPlayTCP, roleReadTCP)
+	}
+	for rep := 0; rep < 4; rep++ {
+		mcast("stream-close-2-multicast-1-udp-reader", "stream", nil, roleReadMcast, either(rep%2 == 0, roleRawPlayMcast, roleReadMcast), roleReadUDP)
+	}
+	for rep := 0; rep < 2; rep++ {
+		mcast("server-close-1-multicast-1-tcp-reader", "server", nil, either(rep%2 == 0, roleReadMcast, roleRawPlayMcast), roleReadTCP)
+	}
+	for rep := 0; rep < 2; rep++ {
+		mcast("multicast-reader-leaves-then-stream-close", "stream", []int{0}, either(rep%2 == 0, roleReadMcast, roleRawPlayMcast), roleReadTCP, roleReadTCP)
+	}
+	for rep := 0; rep < 3; rep++ {
+		mcast("one-of-two-multicast-readers-leaves-then-stream-close", "stream", []int{rep % 2}, roleReadMcast, roleRawPlayMcast, roleReadTCP, roleReadUDP)
+	}
+	return out
 }
 
-func genScenario(rng *hx.Rand, i int) *scenario {
-	sc := &scenario{Idx: i, Seed: rng.U64() % 1000000007}
+func either(b bool, x, y clientRole) clientRole {
+	if b {
+		return x
+	}
+	return y
+}
+
+// genMixedMcast: a stream with at least one multicast reader AND at least one TCP / unicast-UDP reader, all
+// playing; mostly it is the stream that gets closed
+func genMixedMcast(rng *hx.Rand, sc *scenario) {
+	for k, n := 0, 1+rng.Intn(2); k < n; k++ {
+		sc.Roles = append(sc.Roles, hx.Pick(rng, roleReadMcast, roleRawPlayMcast))
+	}
+	for k, n := 0, 1+rng.Intn(3); k < n; k++ {
+		sc.Roles = append(sc.Roles, hx.Pick(rng, roleReadTCP, roleReadTCP, roleReadUDP, roleReadUDP, roleRawPlayTCP))
+	}
+	// the order in which the peers connect decides nothing (the reader table is a map), but shuffle anyway
+	for k := len(sc.Roles) - 1; k > 0; k-- {
+		j := rng.Intn(k + 1)
+		sc.Roles[k], sc.Roles[j] = sc.Roles[j], sc.Roles[k]
+	}
+	for range sc.Roles {
+		sc.Depth = append(sc.Depth, hx.Pick(rng, 3, 3, 3, 3, 4))
+	}
+	sc.Target = hx.Pick(rng, "stream", "stream", "stream", "stream", "server", "session", "client", "conn", "none")
+	sc.WaitPlay = rng.Intn(4) != 0
+	if rng.Intn(4) == 0 {
+		sc.LeaveFirst = []int{rng.Intn(len(sc.Roles))}
+	}
+	sc.DelayMs = rng.Intn(25)
+	sc.Q = hx.Pick(rng, 8, 64, 256)
+	sc.Burst, sc.NBursts, sc.GapUs = 1+rng.Intn(4), 1+rng.Intn(10), hx.Pick(rng, 0, 200, 1000)
+	sc.PktSleepUs = hx.Pick(rng, 0, 0, 100, 1000)
+	if rng.Intn(3) == 0 {
+		sc.ReportUs = hx.Pick(rng, 100, 1000, 5000)
+	}
+}
+
+func genScenario(rng *hx.Rand, i int, mcastIP string) *scenario {
+	sc := &scenario{Idx: i, Seed: rng.U64() % 1000000007, McastIP: mcastIP}
+	if mcastIP != "" && rng.Intn(6) == 0 {
+		genMixedMcast(rng, sc)
+		return sc
+	}
 	n := 1 + rng.Intn(4)
 	tcpSess := false
 	for k := 0; k < n; k++ {
 		var role clientRole
-		switch rng.Intn(16) {
+		switch rng.Intn(18) {
+		case 16:
+			role = either(mcastIP != "", roleReadMcast, roleReadUDP)
+		case 17:
+			role = either(mcastIP != "", roleRawPlayMcast, roleRawPlayTCP)
 		case 0:
 			role = roleIdleConn
 		case 1:
@@ -1123,6 +1311,9 @@ func genScenario(rng *hx.Rand, i int) *scenario {
 		d := rng.Intn(5)
 		if rng.Intn(2) == 0 || role == roleRawPlayTCP || role == roleRawRecTCP {
 			d = 3
+		}
+		if role == roleRawPlayMcast && d < 2 {
+			d = 2 + rng.Intn(3) // without a DESCRIBE step a hand-made multicast reader has nothing to do before SETUP
 		}
 		if d >= 3 && role != roleIdleConn && role != roleOptions {
 			tcpSess = true
@@ -1490,11 +1681,25 @@ func main() {
 			scs = append(scs, &c)
 		}
 	} else {
+		// multicast readers only where the machine can do multicast at all
+		mcastIP, why := multicastProbe()
+		if os.Getenv("LIFECYCLE_NOMCAST") != "" {
+			mcastIP, why = "", "LIFECYCLE_NOMCAST is set"
+		}
+		if mcastIP == "" {
+			ctx.Kind("multicast-unavailable")
+			ctx.Extra("multicast_unavailable", why)
+		} else {
+			ctx.Extra("multicast_interface_address", mcastIP)
+		}
 		if os.Getenv("LIFECYCLE_NOCORPUS") == "" {
-			scs = corpus()
+			scs = corpus(mcastIP)
+			for _, sc := range scs {
+				sc.McastIP = mcastIP // every server gets the multicast configuration
+			}
 		}
 		for i := len(scs); i < n; i++ {
-			scs = append(scs, genScenario(ctx.Rng, i))
+			scs = append(scs, genScenario(ctx.Rng, i, mcastIP))
 		}
 		for i, sc := range scs {
 			sc.Idx = i
